@@ -65,3 +65,22 @@ func init() {
 		gOpts{},
 	)
 }
+
+func init() {
+	specs["C06"] = genSpec(
+		"Values are drawn by the harness' reference generator over the schema (parsed again by the harness' own model); its reference JSON writer, written from the 'correspondence with JSON' chapter of TLPrimer, emits them in the canonical form and in every documented alternative form chosen per site (absent field = empty value and the reverse, numbers as decimal strings, strings as base64 objects, enums as objects, unions as strings or without value, Maybe with/without ok, a masked empty field left to its explicit bit, a local mask left out when the written fields imply it, true-fields as false when their bit is clear, dictionaries as arrays of pairs, other key orders). The generated ReadJSON must accept the text and the value's TL1 bytes must equal the reference encoder's. One documented invalid form per negative case (unknown key, duplicate key, array length different from its size parameter, ok:false with a value, and - for sets generated without TL2 - false for a true-field whose bit is set in an explicit mask) must be rejected.",
+		"property-based testing (rapid): metamorphic relation between JSON forms, decided through an independent reference JSON writer and TL1 encoder",
+		"non-trivial iff at least one alternative form was used (positive case) or the invalid form was placed (negative case); distinct by (schema set, item, value seed, form seed, violation, site)",
+		[]string{"items the reference JSON writer does not model (unnamed fields in user combinators, dictionary keys other than string/int/long, multi-field repetitions) are counted and skipped", "reference values have unique sorted dictionary keys, no negative zero and no NaN payloads"},
+		[]floor{{"accepted", 0.3, ""}},
+		gOpts{QSets: []string{"sink", "casesnotl2", "cases"}, TSets: []string{"sink", "casesnotl2", "cases", "goldmaster"}},
+	)
+	specs["C11"] = genSpec(
+		"Reference side: the schema is read again by the harness' own model and values are drawn by its generator. TL1: (1) reference bytes (refcodec: little-endian primitives, string length forms and padding, boxed tags including implicit CRC32 tags computed from the reference canonical form, local/external/nested field masks, size parameters, repetitions) must be accepted by generated readers exactly (7 appended bytes returned) and written back identically; (2) the same values enter generated code by name through canonical reference JSON and must leave it as the same TL1 bytes (catches a field order that is wrong consistently in reader and writer); (3) bytes written by generated code from harness values, and mutated encodings, must get the same verdict from the reference decoder, the same consumed length, and the reference re-encoding must reproduce what both accepted. TL2: (4) a reference TL2 writer written from TL2Primer (varlen sizes, one presence-mask byte before every 8 fields, variant index under bit 0, optional = masked fields, fm.N?true as bit, bool bytes, counted arrays, dictionaries as arrays of key/value objects, Maybe as union, minimal form) - generated WriteTL2 of the value read from reference TL1 bytes must equal it, and (5) generated ReadTL2 must accept the reference TL2 bytes exactly and yield the value whose TL1 bytes are the reference's.",
+		"property-based testing (rapid): differential check against an independent reference implementation of the documented TL1 and TL2 formats, both directions plus mutated byte strings",
+		"non-trivial iff the TL1 encoding has >= 12 bytes (accepted) or >= 8 bytes (rejected by both), or the TL2 encoding has >= 6 bytes; distinct by (schema set, item, direction, seeds, edits)",
+		[]string{"no reference TL2 decoder: the TL2 accept set is probed with reference-written bytes only (mutated TL2 bytes are compared differentially in C12/C13)", "vector<Bool> is an array of bool bytes as in the kernel (the primer's transition chapter says bit arrays; see DESIGN.md 0.5)", "field-less constructors as registry items of their own, arrays of true, unnamed fields in user combinators are counted and skipped"},
+		[]floor{{"both-rejected", 0.05, ""}, {"ref-to-gen", 0.2, ""}, {"tl2-write", 0.08, ""}},
+		gOpts{QSets: []string{"sink", "cases"}, TSets: []string{"sink", "cases", "goldmaster"}},
+	)
+}
